@@ -577,13 +577,13 @@ fn main() {
             sc(&["W0"], 1, 1, false),
             // a child whose prover reduced its ALU lanes (stark_common != the prover data it came with)
             sc(&["B2"], 1, 2, false),
-            sc(&["U0", "U1", "B0"], 3, 2, false),
             // one base, two parameter sets, one step deeper: histories such as
             // "prepare under P0 ; switch to P1 ; prove with the held preparation"
             // A pure next-layer chain (L and P actions only): with aggregations its last level alone
             // is 200 calls / 16 s and never fitted the quick budget; aggregation histories of depth 3
             // are in the thorough tier. The L-reuse variants are covered at depth <= 2 above.
             Alphabet { reuse: false, agg: false, ..sc(&["B0"], 2, 3, false) },
+            sc(&["U0", "U1", "B0"], 3, 2, false),
         ]
     } else {
         vec![
